@@ -39,6 +39,14 @@ CHECKS["C03"] = (
     "spread is in [0,81.03]; on uniform direction grids N in {4,6} (thorough 8,12) with exact algebraic cos/sin, "
     "rotating a 2D spectrum by k bins or mirroring it rotates/mirrors (A1,B1), (A2,B2) and the band averages exactly and "
     "leaves e, moments, peak index and spread unchanged.", "DESIGN.md#c03", "")
+CHECKS["C13"] = (
+    "For fully symbolic strictly monotone grids (2..4 nodes, ascending/descending; thorough 5) and symbolic targets: "
+    "bracketing indices and weights (linear and nearest), no extrapolation (NaN outside), weight 1 at nodes incl. the "
+    "last; interpolate_dataset_along_axis equals the piecewise-linear reference for every axis position of rank 1..3 "
+    "data, is between the neighbours, exact for affine data, passes other variables through, applies the NaN "
+    "renormalisation rule (valid weight > 1/2) for all NaN placements; two-coordinate grid interpolation is bilinear; "
+    "spectra interpolate E linearly and moments energy-weighted in time/frequency with the extrapolation value outside; "
+    "np.empty is modelled as unconstrained symbols.", "DESIGN.md#c13", "")
 NA = {}
 
 ALL = [f"C{i:02d}" for i in range(1, 21)]
